@@ -118,21 +118,34 @@ def lean_sources():
     return out
 
 
+def prop_modules(prop):
+    """proof modules of a property: Props/<prop>.lean plus companion files Props/<prop><Suffix>.lean"""
+    d = os.path.join(LEAN, "Magog", "Props")
+    mods = sorted(fn[:-5] for fn in os.listdir(d) if fn.endswith(".lean") and fn.startswith(prop) and (fn == prop + ".lean" or fn[len(prop)].isalpha()))
+    return [prop] + [m for m in mods if m != prop] if prop in mods else mods
+
+
 def audit_proofs(ctx):
     """lake build result + theorem list + #print axioms + forbidden-token grep (+ leanchecker in thorough)"""
     prop = ctx.prop
-    target = f"Magog.Props.{prop}"
-    rc, out = ctx.prep["lean"].get(target, (1, "not built"))
-    path = os.path.join(LEAN, "Magog", "Props", f"{prop}.lean")
-    src = open(path).read() if os.path.exists(path) else ""
-    names = re.findall(r"^theorem\s+([A-Za-z0-9_.']+)", strip_comments(src), flags=re.M)
+    mods = prop_modules(prop)
+    targets = [f"Magog.Props.{m}" for m in mods]
+    target = " ".join(targets)
+    names = []          # (module, theorem)
+    for m in mods:
+        path = os.path.join(LEAN, "Magog", "Props", f"{m}.lean")
+        src = open(path).read() if os.path.exists(path) else ""
+        for n in re.findall(r"^theorem\s+([A-Za-z0-9_.']+)", strip_comments(src), flags=re.M):
+            names.append((m, n))
     ctx.obligations = len(names)
-    ctx.theorems = names
+    ctx.theorems = [n if m == prop else f"{m}.{n}" for m, n in names]
     ctx.checker_cmd = f"cd /verif/lean && lake build {target} && lake env lean build/Audit_{prop}.lean  # #print axioms on every theorem"
-    if rc != 0:
-        ctx.discharged = 0
-        errs = [l for l in out.split("\n") if "error" in l][:8]
-        return {"ok": False, "why": "lake build failed", "detail": "\n".join(errs) or out[-1500:], "target": target}
+    for t in targets:
+        rc, out = ctx.prep["lean"].get(t, (1, "not built"))
+        if rc != 0:
+            ctx.discharged = 0
+            errs = [l for l in out.split("\n") if "error" in l][:8]
+            return {"ok": False, "why": "lake build failed", "detail": "\n".join(errs) or out[-1500:], "target": t}
     # forbidden tokens anywhere in the library (comments stripped)
     for p in lean_sources():
         s = strip_comments(open(p).read())
@@ -142,30 +155,34 @@ def audit_proofs(ctx):
             return {"ok": False, "why": f"forbidden token {m.group(0)!r} in {os.path.relpath(p, LEAN)}", "detail": "", "target": target}
     audit = os.path.join(BUILD, f"Audit_{prop}.lean")
     with open(audit, "w") as f:
-        f.write(f"import {target}\nopen Magog\n")
-        for n in names:
-            f.write(f"#print axioms Magog.Props.{prop}.{n}\n")
+        for t in targets:
+            f.write(f"import {t}\n")
+        f.write("open Magog\n")
+        for m, n in names:
+            f.write(f"#print axioms Magog.Props.{m}.{n}\n")
     rc2, out2 = infra.sh(["lake", "env", "lean", audit], cwd=LEAN)
     bad = []
     okc = 0
-    for n in names:
-        m = re.search(r"'Magog\.Props\.%s\.%s' (does not depend on any axioms|depends on axioms: \[([^\]]*)\])" % (re.escape(prop), re.escape(n)), out2.replace("\n", " "))
-        if not m:
-            bad.append(f"{n}: no axiom report")
+    flat = out2.replace("\n", " ")
+    for m, n in names:
+        mm = re.search(r"'Magog\.Props\.%s\.%s' (does not depend on any axioms|depends on axioms: \[([^\]]*)\])" % (re.escape(m), re.escape(n)), flat)
+        if not mm:
+            bad.append(f"{m}.{n}: no axiom report")
             continue
-        axs = set(a.strip() for a in (m.group(2) or "").split(",") if a.strip())
+        axs = set(a.strip() for a in (mm.group(2) or "").split(",") if a.strip())
         if axs - ALLOWED_AXIOMS:
-            bad.append(f"{n}: axioms {sorted(axs - ALLOWED_AXIOMS)}")
+            bad.append(f"{m}.{n}: axioms {sorted(axs - ALLOWED_AXIOMS)}")
         else:
             okc += 1
     ctx.discharged = okc
     if rc2 != 0 or bad:
         return {"ok": False, "why": "axiom audit failed", "detail": "; ".join(bad) or out2[-1500:], "target": target}
     if not ctx.quick:
-        rc3, out3 = infra.sh(["lake", "env", "leanchecker", target], cwd=LEAN, timeout=1800)
-        ctx.notes.append(f"leanchecker {target}: rc={rc3}")
-        if rc3 != 0:
-            return {"ok": False, "why": "leanchecker rejected the module", "detail": out3[-1500:], "target": target}
+        for t in targets:
+            rc3, out3 = infra.sh(["lake", "env", "leanchecker", t], cwd=LEAN, timeout=3600)
+            ctx.notes.append(f"leanchecker {t}: rc={rc3}")
+            if rc3 != 0:
+                return {"ok": False, "why": "leanchecker rejected the module", "detail": out3[-1500:], "target": t}
     return {"ok": True}
 
 
@@ -2481,6 +2498,35 @@ def check_C17(ctx):
             ctx.sample({"script": sent[:10], "ok": ok})
 
 
+def uci_model_correspondence(ctx):
+    """co_uci_model: the Lean model of the command interpreter (Model.uciStep, the subject of the C17 theorems)
+    against engine/uci.go, line by line over whole sessions of arbitrary byte lines (tools/uci_diff.py)"""
+    n = ctx.size(600, 12000)
+    out = os.path.join(BUILD, f"uci_diff_{ctx.seed}.json")
+    if os.path.exists(out):
+        os.remove(out)
+    rc, txt = infra.sh([sys.executable, os.path.join(VERIF, "tools", "uci_diff.py"), "--sessions", str(n), "--seed", str(ctx.seed * 7919 + 17),
+                        "--workers", str(min(12, infra.NCPU)), "--json", out], timeout=3600)
+    if not os.path.exists(out):
+        ctx.violation("uci-model-run", {"kind": "unproved", "what": "co_uci_model did not run", "detail": txt[-2000:]}, found=False)
+        return
+    r = json.load(open(out))
+    compared = r["stats"].get("lines compared with the real code", 0)
+    ctx.co["co_uci_model"] = compared
+    ctx.evaluations += compared
+    for k, v in r["categories"].items():
+        ctx.bump("model_line:" + k, v)
+    for k, v in r["classes"].items():
+        ctx.bump("model_outcome:" + k, v)
+    for pnc in r["real_panics_inside_pre"][:3]:
+        lines = [bytes.fromhex(x).decode("latin-1") for x in pnc["prefix"]] + [bytes.fromhex(pnc["line"]).decode("latin-1")]
+        ctx.violation("uci-crash:" + pnc["line"], {"kind": "history", "lines": lines, "what": "input line within the UCI precondition crashes the engine: " + pnc["panic"]})
+    for m in r["mismatches"][:3]:
+        lines = [bytes.fromhex(x).decode("latin-1") for x in m["lines"]]
+        ctx.violation("uci-model:" + (m["lines"][-1] if m["lines"] else m["what"]), {"kind": "history", "lines": lines, "what": "command interpreter: engine and Lean model (Model.uciStep) disagree: " + m["what"],
+                                                             "model": m["model"], "engine": m["real"]}, found=False)
+
+
 def minimal_context(lb):
     """the crashing line needs the driver's accumulated state; find a small prefix: nothing, or a position"""
     for prefix in ([], ["position startpos"]):
@@ -2670,7 +2716,7 @@ def check_C19(ctx):
 
 def run(ctx):
     spec = CHECKS[ctx.prop]
-    ctx.prep = infra.prepare(lean_targets=[f"Magog.Props.{ctx.prop}"], need_race=spec.get("race", False) and not ctx.quick)
+    ctx.prep = infra.prepare(lean_targets=[f"Magog.Props.{m}" for m in prop_modules(ctx.prop)], need_race=spec.get("race", False) and not ctx.quick)
     # T3 escalation: mirrored functions whose AST hash changed w.r.t. the committed baseline
     base_path = os.path.join(VERIF, "tools", "func_hashes.json")
     if os.path.exists(base_path):
@@ -2751,7 +2797,7 @@ CHECKS = {
     "C13": {"fn": check_C13, "rule": "complete boundary lattice (67500 cases) + random clocks: calcEndtime vs model, and bounds / own-clock / monotonicity directly on the engine's values; doGo token parsing through the real command path (deadline hook) vs model; measured wall-clock overshoot"},
     "C14": {"fn": with_trace(check_C14, 24, 400), "rule": "probe `position P; go depth d` after a random command history (other games, finished and stopped searches, perft/eval, option changes) vs the same probe in a fresh process; canonical analysis = per-depth score, pv, nodes + bestmove"},
     "C16": {"fn": check_C16, "rule": "random query sequences (go to completion, go stopped at random times, movetime, perft, tperft, eval, tostr, isready, setoption) after `position P`; tostr + perft 1 text before/after; following search vs fresh search"},
-    "C17": {"fn": check_C17, "rule": "grammar-directed lines with boundary/malformed arguments and random bytes: synchronous lines in-process (panic recovered per line), fixed boundary scripts and random sessions with searches against the real binary; must keep answering isready"},
+    "C17": {"fn": lambda ctx: (check_C17(ctx), uci_model_correspondence(ctx)), "rule": "grammar-directed lines with boundary/malformed arguments and random bytes: synchronous lines in-process (panic recovered per line), fixed boundary scripts and random sessions with searches against the real binary; must keep answering isready"},
     "C18": {"fn": check_C18, "rule": "stress scenarios: move numbers 1..9999, fortress positions at depth MaxSearchDepth-1..100 and infinite, games of hundreds of plies through `position ... moves`, capture chains, perft depth around the stack size"},
     "C19": {"fn": check_C19, "rule": "command prefixes x {quit, EOF} x {idle, mid-search, after bestmove}: process must exit within 2.5 s; CPU use of a survivor recorded"},
     "C15": {"fn": check_C15, "rule": "evaluation of each pool position vs its colour-flipped mirror on the engine; engine vs model for full and cheap parts; complete blend domain Go float64 vs Lean Float"},
